@@ -53,6 +53,15 @@ LIT_POOL = {
 }
 
 
+# literals of a kind other than the attribute's whose Python value would compare equal untyped
+CROSS_KIND = {
+    'Boolean': [0, 1, 0.0, 1.0, 'true', ''],
+    'Int': [True, False, '1', '0'],
+    'Float': [True, False, '0.5'],
+    'String': [0, 1, True, False],
+}
+
+
 def attr_kind(f):
     n = f.type.name if f.type.kind == 'prim' else None
     if n == 'String':
@@ -94,6 +103,9 @@ def run_shard(tier, seed, idx, n, res, tmp):
         def atom():
             i = rnd.randrange(k)
             lit = rnd.choice(LIT_POOL[kinds[i]] + [None])
+            if rnd.random() < 0.2:
+                # a literal of another kind: literals are typed, so true never equals 1 and "1" never equals 1
+                lit = rnd.choice(CROSS_KIND[kinds[i]])
             return fx.Pred(names[i], rnd.choice(['=', '!=']), lit)
         tree = fx.random_expr(rnd, atom, rnd.randint(0, 4))
         text = fx.render(tree, rnd)
@@ -204,6 +216,8 @@ def run_shard(tier, seed, idx, n, res, tmp):
                 if attr_kind(f) == 'Float':
                     pool = [float(v) for v in pool]
                 lit = rnd.choice(pool + [None])
+                if rnd.random() < 0.2:
+                    lit = rnd.choice(CROSS_KIND[attr_kind(f)])
                 return fx.Pred(f.name, rnd.choice(['=', '!=']), lit)
             tree = fx.random_expr(rnd, atom, rnd.randint(0, 3))
             text = fx.render(tree, rnd)
